@@ -130,12 +130,20 @@ fam("list_opidx_user", "list1b", LIST + ["__g := \\a, b -> a * 2 + b"], FOR + "x
 fam("list_while_set", "list1b", LIST + ["__i := 0"], "while (__i < @N) (x[__i] = 5; __i += 1)")
 # the loop itself takes an alias four times (and drops the previous one): one copy per alias is allowed
 fam("list_realias4", "list1b", LIST + ["__c := null"], FOR + "(if (i % @R == 0) __c = x; x[i] = i + 1)", dyn_holders=4)
+# variables declared with a type annotation (the annotation is re-checked after indexed assignment)
+TLIST = ["x: list = list(0 til @N)"]
+fam("tlist_set", "list1", TLIST, FOR + "x[i] = i + 1")
+fam("tlist_opidx", "list1", TLIST, FOR + "x[i] += 3")
+fam("tlist_append", "list1b", TLIST, FOR + "x append= i")
+fam("tany_set", "list1b", ["x: anything = list(0 til @N)"], FOR + "x[i] = i + 1")
 fam("ctl_list_set", "list1", LIST + ["__c := null"], FOR + "(__c = x; x[i] = i + 1)", control=True)
 fam("ctl_list_opidx", "list1b", LIST + ["__c := null"], FOR + "(__c = x; x[i] += 3)", control=True)
 
 fam("list_append", "list2", LIST, FOR + "x append= i", holders_mutate=FOR + "(x append= 1; __y1 append= 2; __y2 append= 3)")
 fam("list_concat1", "list2", LIST, FOR + "x ++= [i]")
 fam("list_concat2", "list2", LIST, FOR + "x ++= [i, i + 1]")
+fam("list_concat_shared", "list2", LIST + ["__row := [1]"], FOR + "x ++= __row")
+fam("list_concat_loopvar", "list2", LIST + ["__rows := (0 til @N) map (\\i -> [i])"], "for (r_ <- __rows) x ++= r_")
 fam("list_pop", "list3", LIST, FOR + "pop x")
 fam("list_remove_last", "list3", LIST, FOR + "remove x[-1]")
 fam("list_remove_tail", "list3", ["x := list(0 til @N2)"], FOR + "remove x[-2:]")
@@ -180,6 +188,8 @@ fam("dict_set_new", "dict1", DICT, FOR + "x[@N + i] = i", kind="d", div=4)
 fam("dict_opidx_existing", "dict1", DICT, FOR + "x[i] += 2", kind="d", div=4)
 fam("dict_op_default_existing", "dict1", DICTDEF, FOR + "x[i] += 1", kind="d", div=4)
 fam("dict_op_default_new", "dict1", DICTDEF, FOR + "x[@N + i] += 1", kind="d", div=4)
+fam("tdict_set_existing", "dict1", ["x: dict = {}", "for (i <- 0 til @N) x[i] = i"], FOR + "x[i] = i + 1", kind="d", div=4)
+fam("tdict_set_new", "dict1", ["x: dict = {}", "for (i <- 0 til @N) x[i] = i"], FOR + "x[@N + i] = i", kind="d", div=4)
 fam("ctl_dict_set", "dict1", DICT + ["__c := null"], FOR + "(__c = x; x[i] = i + 1)", kind="d", div=4, control=True)
 
 fam("dict_add_key", "dict2", DICT, FOR + "x |.= @N + i", kind="d", div=4)
